@@ -115,9 +115,10 @@ public:
 	}
     bool anonymous() const {return name_.empty();}
 
-    void set_name(std::string _name) {
-        name_ = std::move(_name);
-    }
+    /// Rename the property. A shared property must keep a non-empty name that is
+    /// unique among the shared properties of the same type and entity on its mesh;
+    /// otherwise std::runtime_error is thrown and nothing is changed.
+    void set_name(std::string _name);
 
 	const std::string& internal_type_name() const && = delete;
 
